@@ -23,13 +23,15 @@ func init() {
 		Explanation: "Structural clause decided completely, for every guest program: every cycle of guest control flow that does not grow a bounded stack contains a termination check. The cycle-forming opcodes of the enabled feature set are exactly loop, return_call and return_call_indirect " +
 			"(br/br_if/br_table only branch backwards to loop headers; call/call_indirect grow the call stack, which is bounded). Checked in both engines: (R07.1) the lowering arm of each of the three opcodes emits the check operation under exactly the close-on-context-done flag, positioned inside the cycle " +
 			"(last in the loop-header arm; before the tail-call operation; the interpreter's imported-function fallback emits a regular call and is exempt); (R07.2) the Go side of the check calls FailIfClosed and panics with its error, and FailIfClosed builds the exit error from the closed word; " +
-			"(R07.3) both call entries, under the flag, test ctx.Done() first, start the watcher and defer its cancel; the watcher maps Canceled/DeadlineExceeded to their exit codes. NOT decided: promptness (time), scheduling of the watcher goroutine, correctness of the emitted machine code of the check.",
+			"(R07.3) both call entries, under the flag, test ctx.Done() first, start the watcher and defer its cancel; the watcher maps Canceled/DeadlineExceeded to their exit codes. (R07.4) the Go side of the check polls the module the watcher closes (same access path from the call engine; a genuine interpreter defect – only the immediate caller's module was polled – was found and fixed); (R07.5) on the context-done path the closed flag is published before anything that takes the store lock. NOT decided: promptness (time), scheduling of the watcher goroutine, correctness of the emitted machine code of the check.",
 		Assumptions: []string{"the list of cycle-forming opcodes is complete for the validator's accepted control instructions (kept honest by C01 R01.1 when built)", "call-stack depth is bounded in both engines (C06 R06.5)"},
 		Rules: []core.Rule{
 			{ID: "R07.0", Template: "anchor", Text: "flag fields = struct fields the ensureTermination parameter of Engine.CompileModule flows into; check marker = the operation kind / trampoline slot whose Go side calls FailIfClosed", Min: 4},
 			{ID: "R07.1", Template: "T-MUSTPASS", Text: "each cycle-forming opcode's lowering emits the termination check under exactly the flag, inside the cycle", Min: 6},
 			{ID: "R07.2", Template: "T-MUSTPASS", Text: "the Go side of the check calls FailIfClosed and panics with its error; FailIfClosed returns an exit error carrying the high half of the closed word", Min: 3},
 			{ID: "R07.3", Template: "T-MUSTPASS", Text: "call entries: ctx.Done pre-check, watcher started under the flag with its cancel deferred; watcher maps both context errors to their exit codes", Min: 6},
+			{ID: "R07.4", Template: "T-SIBLING", Text: "the Go side of the check consults the module the watcher closes (same access path from the call engine) – genuine interpreter defect found and fixed", Min: 2},
+			{ID: "R07.5", Template: "T-MUSTPASS", Text: "on the context-done path the closed flag is published before anything that takes the store lock", Min: 1},
 		},
 		Run: runC07,
 		Controls: []core.Control{
@@ -38,8 +40,10 @@ func init() {
 			{Name: "interp-tailcall-check-removed", File: "internal/engine/interpreter/compiler.go", Old: "\t\t\tif c.ensureTermination {\n\t\t\t\tc.emit(newOperationBuiltinFunctionCheckExitCode())\n\t\t\t}\n\t\t\tc.emit(newOperationTailCallReturnCall(index))", New: "\t\t\tc.emit(newOperationTailCallReturnCall(index))", Rule: "R07.1", Substr: "interpreter return_call"},
 			{Name: "wazevo-tailcall-indirect-check-removed", File: "internal/engine/wazevo/frontend/lower.go", Old: "func (c *Compiler) lowerTailCallReturnCallIndirect(typeIndex, tableIndex uint32) {\n\t// A tail call does not grow the call stack, so a cycle of them is a loop.\n\tif c.ensureTermination {\n\t\tc.insertModuleExitCodeCheck()\n\t}\n", New: "func (c *Compiler) lowerTailCallReturnCallIndirect(typeIndex, tableIndex uint32) {\n", Rule: "R07.1", Substr: "wazevo"},
 			{Name: "wazevo-loop-check-extra-condition", File: "internal/engine/wazevo/frontend/lower.go", Old: "\t\tif c.ensureTermination {\n\t\t\tc.insertModuleExitCodeCheck()\n\t\t}\n\tcase wasm.OpcodeIf:", New: "\t\tif c.ensureTermination && len(bt.Params) == 0 {\n\t\t\tc.insertModuleExitCodeCheck()\n\t\t}\n\tcase wasm.OpcodeIf:", Rule: "R07.1", Substr: "wazevo loop"},
-			{Name: "interp-check-does-not-panic", File: "internal/engine/interpreter/interpreter.go", Old: "\t\t\tif err := m.FailIfClosed(); err != nil {\n\t\t\t\tpanic(err)\n\t\t\t}\n\t\t\tframe.pc++\n\t\tcase operationKindUnreachable:", New: "\t\t\t_ = m.FailIfClosed()\n\t\t\tframe.pc++\n\t\tcase operationKindUnreachable:", Rule: "R07.2", Substr: "interpreter"},
-			{Name: "interp-check-conditional", File: "internal/engine/interpreter/interpreter.go", Old: "\t\t\tif err := m.FailIfClosed(); err != nil {\n\t\t\t\tpanic(err)\n\t\t\t}\n\t\t\tframe.pc++\n\t\tcase operationKindUnreachable:", New: "\t\t\tif m.Closed.Load()>>32 != 0 {\n\t\t\t\tif err := m.FailIfClosed(); err != nil {\n\t\t\t\t\tpanic(err)\n\t\t\t\t}\n\t\t\t}\n\t\t\tframe.pc++\n\t\tcase operationKindUnreachable:", Rule: "R07.2", Substr: "interpreter"},
+			{Name: "interp-check-does-not-panic", File: "internal/engine/interpreter/interpreter.go", Old: "\t\t\tif err := m.FailIfClosed(); err != nil {\n\t\t\t\tpanic(err)\n\t\t\t}\n\t\t\t// m is the module of the immediate caller.", New: "\t\t\t_ = m.FailIfClosed()\n\t\t\t// m is the module of the immediate caller.", Old2: "\t\t\t\tif err := root.FailIfClosed(); err != nil {\n\t\t\t\t\tpanic(err)\n\t\t\t\t}\n", New2: "\t\t\t\t_ = root.FailIfClosed()\n", Rule: "R07.2", Substr: "interpreter"},
+			{Name: "interp-check-conditional", File: "internal/engine/interpreter/interpreter.go", Old: "\t\t\tif err := m.FailIfClosed(); err != nil {\n\t\t\t\tpanic(err)\n\t\t\t}\n\t\t\t// m is the module of the immediate caller.", New: "\t\t\tif m.Closed.Load()>>32 != 0 {\n\t\t\t\tif err := m.FailIfClosed(); err != nil {\n\t\t\t\t\tpanic(err)\n\t\t\t\t}\n\t\t\t}\n\t\t\t// m is the module of the immediate caller.", Rule: "R07.2", Substr: "interpreter"},
+			{Name: "interp-check-only-immediate-caller", File: "internal/engine/interpreter/interpreter.go", Old: "\t\t\tif root := ce.f.moduleInstance; root != m {\n\t\t\t\tif err := root.FailIfClosed(); err != nil {\n\t\t\t\t\tpanic(err)\n\t\t\t\t}\n\t\t\t}\n", New: "", Rule: "R07.4", Substr: "interpreter"},
+			{Name: "watcher-unregisters-before-flag", File: "internal/wasm/module_instance.go", Old: "\tif !m.setExitCode(exitCode, exitCodeFlagResourceNotClosed) {\n\t\treturn nil // not an error to have already closed\n\t}\n\t_ = m.s.deleteModule(m)\n\treturn nil\n", New: "\t_ = m.s.deleteModule(m)\n\tm.setExitCode(exitCode, exitCodeFlagResourceNotClosed)\n\treturn nil\n", Rule: "R07.5", Substr: "closed flag"},
 			{Name: "wazevo-watcher-not-started", File: "internal/engine/wazevo/call_engine.go", Old: "\tif ensureTermination {\n\t\tdone := m.CloseModuleOnCanceledOrTimeout(ctx)\n\t\tdefer done()\n\t}\n", New: "", Rule: "R07.3", Substr: "wazevo"},
 			{Name: "watcher-deadline-unmapped", File: "internal/wasm/module_instance.go", Old: "\t\t\tcase errors.Is(ctx.Err(), context.DeadlineExceeded):\n\t\t\t\t// TODO: figure out how to report error here.\n\t\t\t\t_ = m.closeWithExitCodeWithoutClosingResource(sys.ExitCodeDeadlineExceeded)\n", New: "", Rule: "R07.3", Substr: "DeadlineExceeded"},
 		},
@@ -96,6 +100,8 @@ func mainClause(refs []core.ClauseRef) *core.ClauseRef {
 }
 
 func runC07(c *core.Ctx) {
+	checkWatcherModule(c)
+	checkFlagBeforeLock(c)
 	wasmP := c.Pkg("internal/wasm")
 	opLoop, opRC, opRCI, opCall := constObj(wasmP, "OpcodeLoop"), constObj(wasmP, "OpcodeTailCallReturnCall"), constObj(wasmP, "OpcodeTailCallReturnCallIndirect"), constObj(wasmP, "OpcodeCall")
 	if opLoop == nil || opRC == nil || opRCI == nil || opCall == nil {
@@ -699,5 +705,192 @@ func runC07(c *core.Ctx) {
 					"arm for context."+p.errName+" closes with sys."+p.codeName, "no arm tests errors.Is(ctx.Err(), context."+p.errName+") and closes with sys."+p.codeName+": that cause never closes the module (or closes it with the wrong exit code; classifying anything but ctx.Err(), e.g. context.Cause, misses custom causes)")
 			}
 		})
+	}
+}
+
+
+// ---- R07.4 the check consults the module the watcher closes ----
+
+// accessPath resolves an expression to a path from the method receiver ("recv.f.moduleInstance"), following
+// single-assignment local variables; "param:<name>" for parameters, "" if not resolvable.
+func accessPath(info *types.Info, fd *ast.FuncDecl, e ast.Expr) string {
+	defs := map[types.Object]ast.Expr{}
+	ast.Inspect(fd.Body, func(x ast.Node) bool {
+		if as, ok := x.(*ast.AssignStmt); ok && as.Tok == token.DEFINE && len(as.Lhs) == len(as.Rhs) {
+			for i, l := range as.Lhs {
+				if id, ok := l.(*ast.Ident); ok {
+					if o := info.Defs[id]; o != nil {
+						defs[o] = as.Rhs[i]
+					}
+				}
+			}
+		}
+		if is, ok := x.(*ast.IfStmt); ok {
+			if as, ok := is.Init.(*ast.AssignStmt); ok && as.Tok == token.DEFINE && len(as.Lhs) == len(as.Rhs) {
+				for i, l := range as.Lhs {
+					if id, ok := l.(*ast.Ident); ok {
+						if o := info.Defs[id]; o != nil {
+							defs[o] = as.Rhs[i]
+						}
+					}
+				}
+			}
+		}
+		return true
+	})
+	var recv types.Object
+	if fd.Recv != nil && len(fd.Recv.List) == 1 && len(fd.Recv.List[0].Names) == 1 {
+		recv = info.Defs[fd.Recv.List[0].Names[0]]
+	}
+	params := map[types.Object]bool{}
+	for _, f := range fd.Type.Params.List {
+		for _, n := range f.Names {
+			params[info.Defs[n]] = true
+		}
+	}
+	var rec func(e ast.Expr, d int) string
+	rec = func(e ast.Expr, d int) string {
+		if d > 8 {
+			return ""
+		}
+		switch x := ast.Unparen(e).(type) {
+		case *ast.Ident:
+			o := info.Uses[x]
+			switch {
+			case o == recv && recv != nil:
+				return "recv"
+			case params[o]:
+				return "param:" + x.Name
+			}
+			if def, ok := defs[o]; ok {
+				return rec(def, d+1)
+			}
+		case *ast.SelectorExpr:
+			if b := rec(x.X, d+1); b != "" {
+				return b + "." + x.Sel.Name
+			}
+		}
+		return ""
+	}
+	return rec(e, 0)
+}
+
+func checkWatcherModule(c *core.Ctx) {
+	for _, e := range []struct{ name, rel, marker string }{
+		{"interpreter", "internal/engine/interpreter", "operationKindBuiltinFunctionCheckExitCode"},
+		{"compiler", "internal/engine/wazevo", "ExitCodeCheckModuleExitCode"},
+	} {
+		p := c.Pkg(e.rel)
+		if p == nil {
+			continue
+		}
+		info := p.TypesInfo
+		var watch []string
+		var watchPos token.Pos
+		var checked []string
+		var armPos token.Pos
+		core.AllFuncDecls(p, func(fd *ast.FuncDecl) {
+			ast.Inspect(fd.Body, func(x ast.Node) bool {
+				switch y := x.(type) {
+				case *ast.CallExpr:
+					if se, ok := y.Fun.(*ast.SelectorExpr); ok && se.Sel.Name == "CloseModuleOnCanceledOrTimeout" {
+						if pth := accessPath(info, fd, se.X); pth != "" {
+							watch = append(watch, pth)
+							watchPos = y.Pos()
+						}
+					}
+				case *ast.CaseClause:
+					for _, l := range y.List {
+						if constNameOf(info, l) == e.marker {
+							armPos = y.Pos()
+							ast.Inspect(y, func(z ast.Node) bool {
+								if call, ok := z.(*ast.CallExpr); ok {
+									if se, ok := call.Fun.(*ast.SelectorExpr); ok && se.Sel.Name == "FailIfClosed" {
+										checked = append(checked, accessPath(info, fd, se.X))
+									}
+								}
+								return true
+							})
+						}
+					}
+				}
+				return true
+			})
+		})
+		if len(watch) == 0 || armPos == 0 {
+			c.Undecided("R07.4", e.name+" watcher / check arm", 0, "CloseModuleOnCanceledOrTimeout call or the check arm not found")
+			continue
+		}
+		ok := true
+		for _, w := range watch {
+			found := false
+			for _, k := range checked {
+				if k == w {
+					found = true
+				}
+			}
+			if !found {
+				ok = false
+			}
+		}
+		c.Check(ok, "R07.4", e.name+": the termination check consults the module the watcher closes", armPos,
+			"watcher on "+strings.Join(watch, ", ")+"; check arm calls FailIfClosed on "+strings.Join(checked, ", "),
+			"the watcher (started at "+c.Pos(watchPos)+") closes "+strings.Join(watch, ", ")+" but the check arm polls only "+strings.Join(checked, ", ")+": inside an imported function that calls a local one the polled module is not the one that gets closed, and a loop there never stops after the context is done")
+	}
+}
+
+// ---- R07.5 the closed flag is published before anything that takes the store lock ----
+
+func checkFlagBeforeLock(c *core.Ctx) {
+	p := c.Pkg("internal/wasm")
+	if p == nil {
+		return
+	}
+	info := p.TypesInfo
+	// functions that take Store.mux (directly)
+	locks := map[string]bool{}
+	core.AllFuncDecls(p, func(fd *ast.FuncDecl) {
+		if core.RecvName(fd) != "Store" {
+			return
+		}
+		ast.Inspect(fd.Body, func(x ast.Node) bool {
+			if call, ok := x.(*ast.CallExpr); ok {
+				if se, ok := call.Fun.(*ast.SelectorExpr); ok && (se.Sel.Name == "Lock" || se.Sel.Name == "RLock") && strings.HasSuffix(core.ExprStr(se.X), ".mux") {
+					locks[fd.Name.Name] = true
+				}
+			}
+			return true
+		})
+	})
+	n := 0
+	core.AllFuncDecls(p, func(fd *ast.FuncDecl) {
+		if core.RecvName(fd) != "ModuleInstance" {
+			return
+		}
+		// functions on the context-done path that both publish the flag and unregister
+		var flagPos, lockPos token.Pos
+		var lockName string
+		ast.Inspect(fd.Body, func(x ast.Node) bool {
+			if call, ok := x.(*ast.CallExpr); ok {
+				if f := core.Callee(info, call); f != nil {
+					if f.Name() == "setExitCode" && flagPos == 0 {
+						flagPos = call.Pos()
+					}
+					if core.RecvNameOf(f) == "Store" && locks[f.Name()] && lockPos == 0 {
+						lockPos, lockName = call.Pos(), f.Name()
+					}
+				}
+			}
+			return true
+		})
+		if flagPos == 0 || lockPos == 0 {
+			return
+		}
+		n++
+		c.Check(flagPos < lockPos, "R07.5", "closed flag before "+lockName+" in "+core.FuncName(p, fd), fd.Pos(), "setExitCode precedes the call that takes the store lock",
+			"the function takes the store lock ("+lockName+") before it publishes the closed flag: while another goroutine holds the store lock (e.g. Runtime.Close waiting in a CloseNotifier) a cancellation is never delivered to the running guest")
+	})
+	if n == 0 {
+		c.Undecided("R07.5", "context-done path", 0, "no ModuleInstance method both sets the exit code and calls a locking Store method")
 	}
 }
